@@ -38,7 +38,8 @@ MANIFEST = {
 
 QUICK_DOCS = ["test-1.numbers", "test-2.numbers", "test-3.numbers", "test-formats.numbers", "test-bullets.numbers", "test-hlinks.numbers",
               "test-issue-74.numbers", "test-custom-formats.numbers", "test-save-1.numbers", "issue-43.numbers", "issue-51.numbers",
-              "test-empty-rows.numbers", "test-new-formulas.numbers", "date_formats.numbers", "duration_112.numbers", "test-package.numbers"]
+              "test-empty-rows.numbers", "test-new-formulas.numbers", "date_formats.numbers", "duration_112.numbers", "test-package.numbers",
+              "issue-17.numbers", "issue-18.numbers", "issue-7.numbers", "create-formulas.numbers"]
 
 
 ACCESSOR_ERRORS: set = set()
@@ -105,6 +106,8 @@ def first_diff(a, b):
             if len(ta) > 4:
                 for r, (ra, rb) in enumerate(zip(ta[4], tb[4])):
                     for c, (ca, cb) in enumerate(zip(ra, rb)):
+                        if "ERRORCELL" in (ca, cb):
+                            continue  # formula-error cells are the stated exception: the library warns it cannot write them
                         if ca != cb:
                             return f"sheet {sa[0]!r} table {ta[0]!r} cell ({r},{c}): {ca!r} -> {cb!r}"
     return None
@@ -141,7 +144,7 @@ def cycle(task):
             doc1.save(p2)
             d2 = dump(Document(p2), False)
         except Exception as e:  # noqa: BLE001
-            sub.violation(f"resave-raises-{exc_name(e)}", f"{name}: open/save cycle raised {exc_name(e)}: {str(e)[:160]}", inp)
+            sub.violation(f"resave-raises-{exc_name(e)}:{name}", f"{name}: open/save cycle raised {exc_name(e)}: {str(e)[:160]}", inp)
             return common.sub_result(sub, None)
         for label, a, b, sig in (("first save/open", d0, d1, "resave-changes-what-is-read"),
                                  ("second save/open", d1, d2, "second-cycle-changes-what-is-read"),
